@@ -106,16 +106,19 @@ Unset == [ld |-> "unset", lc |-> "unset", nd |-> "unset", nc |-> "unset", cbs |-
           cbd |-> "unset", pbl |-> "unset", geo |-> "unset", wk |-> "unset", pub |-> "unset", fk |-> "ok"]
 Shipped == [ld |-> "valid", lc |-> "zero", nd |-> "valid", nc |-> "zero", cbs |-> "shipped", cas |-> "empty",
             cbd |-> "shipped", pbl |-> "empty", geo |-> "empty", wk |-> "valid", pub |-> "true", fk |-> "shipped"]
-Rows == [ld : LD, lc : LC, nd : ND, nc : NC, cbs : CBS, cas : CAS, cbd : CBD, pbl : PBL, geo : GEO, wk : WK,
-         pub : PUB, fk : {"ok"}]
-        \cup {[Unset EXCEPT !.fk = k] : k \in FK \ {"ok"}}
-        \cup {Unset}                                     \* a file that sets no registration key at all
-        \cup (IF WithShipped THEN {Shipped} ELSE {})
-RRows == [ld : {"unset"}, lc : {"unset"}, nd : {"unset"}, nc : {"unset"}, cbs : RCBS, cas : RCAS, cbd : RCBD,
-          pbl : RPBL, geo : RGEO, wk : {"unset"}, pub : RPUB, fk : {"ok"}]
-         \cup {[Unset EXCEPT !.fk = k] : k \in RFK \ {"ok"}}
-         \cup {Unset}
-         \cup (IF WithShipped THEN {Shipped} ELSE {})
+\* (kept as two sets each: TLC enumerates a set of records lazily, but not a union with one)
+ProductRows == [ld : LD, lc : LC, nd : ND, nc : NC, cbs : CBS, cas : CAS, cbd : CBD, pbl : PBL, geo : GEO, wk : WK,
+                pub : PUB, fk : {"ok"}]
+ExtraRows == {[Unset EXCEPT !.fk = k] : k \in FK \ {"ok"}}
+             \cup {Unset}                                \* a file that sets no registration key at all
+             \cup (IF WithShipped THEN {Shipped} ELSE {})
+Rows == ProductRows \cup ExtraRows
+RProductRows == [ld : {"unset"}, lc : {"unset"}, nd : {"unset"}, nc : {"unset"}, cbs : RCBS, cas : RCAS, cbd : RCBD,
+                 pbl : RPBL, geo : RGEO, wk : {"unset"}, pub : RPUB, fk : {"ok"}]
+RExtraRows == {[Unset EXCEPT !.fk = k] : k \in RFK \ {"ok"}}
+              \cup {Unset}
+              \cup (IF WithShipped THEN {Shipped} ELSE {})
+RRows == RProductRows \cup RExtraRows
 
 FileOK(r) == r.fk \in {"ok", "shipped"}
 NoKeys(r) == r = Unset
@@ -199,8 +202,15 @@ Reload(r, sf) ==
         /\ obs' = [a |-> "Reload", row |-> r, sf |-> sf, res |-> "rejected", panicked |-> FALSE, selNew |-> FALSE,
                    st |-> Proj(st, pol, sel, lshape)]
 
-NextNoHK == \/ \E r \in Rows, sf \in SF : Load(r, sf)
-            \/ \E r \in RRows, sf \in RSF : Reload(r, sf)
+\* (the product is walked key by key: TLC refuses to build a set of more than 10^6 records)
+NextNoHK == \/ \E ld \in LD, lc \in LC, nd \in ND, nc \in NC, cbs \in CBS, cas \in CAS, cbd \in CBD, pbl \in PBL,
+                  geo \in GEO, wk \in WK, pub \in PUB, sf \in SF :
+                  Load([ld |-> ld, lc |-> lc, nd |-> nd, nc |-> nc, cbs |-> cbs, cas |-> cas, cbd |-> cbd, pbl |-> pbl,
+                        geo |-> geo, wk |-> wk, pub |-> pub, fk |-> "ok"], sf)
+            \/ \E r \in ExtraRows, sf \in SF : r \notin ProductRows /\ Load(r, sf)
+            \/ \E cbs \in RCBS, cas \in RCAS, cbd \in RCBD, pbl \in RPBL, geo \in RGEO, pub \in RPUB, sf \in RSF :
+                  Reload([Unset EXCEPT !.cbs = cbs, !.cas = cas, !.cbd = cbd, !.pbl = pbl, !.geo = geo, !.pub = pub], sf)
+            \/ \E r \in RExtraRows, sf \in RSF : r \notin RProductRows /\ Reload(r, sf)
 Next == \/ NextNoHK
         \/ \E m \in Modules : PrintStats(m)
         \/ Sweep
